@@ -119,6 +119,8 @@ func checkInPlaceFilterLoop(res *Result, p *Pub, rule, fnName string, wantSites 
 			}
 			res.check(len(bad) == 0, rule, fnName, p.pos(ins), "after removing element i the index stays at i (the next element is examined, not skipped)", strings.Join(bad, "; "))
 			res.check(advanced, rule, fnName, p.pos(ins), "the keep path advances the index (the loop makes progress)", "no path increments the index by one outside the removal branch")
+			okAll, why := everyLapProgresses(phi, loop, isRemovalOf(phi))
+			res.check(okAll, rule, fnName, p.pos(ins), "every way round the loop either removes an element or advances the index (no lap leaves both unchanged)", why)
 		}
 	}
 	res.check(nSites >= wantSites, rule, fnName, p.pos(fn), fmt.Sprintf("%d in-place removal site(s) found", wantSites), fmt.Sprintf("found %d", nSites))
@@ -469,4 +471,121 @@ func checkC02(res *Result) {
 	res.Assumptions = append(res.Assumptions, "value flow is an over-approximation: absence of a flow is exact, presence is necessary for the behaviour", "CFG paths over-approximate feasible paths")
 	res.Undecided = []string{"that the resolved set equals the addressed inboxes on a concrete federation graph", "stored-inbox shortcut arithmetic (removeOne) on duplicates", "cyclic collections with an unlimited depth setting"}
 	res.Trusted = []string{"go/types, go/ssa (x/tools v0.29.0)", "e1_effects.go, e2_facts.go, e4_flow.go, e9_errflow.go"}
+}
+
+
+// isRemovalOf: predicate for instructions that remove the element at the loop
+// index idx from the container (Remove(idx) or append(x[:idx], x[idx+1:]...)).
+func isRemovalOf(idx *ssa.Phi) func(ssa.Instruction) bool {
+	return func(ins ssa.Instruction) bool {
+		ci, ok := ins.(ssa.CallInstruction)
+		if !ok {
+			return false
+		}
+		cc := ci.Common()
+		if bi, ok := cc.Value.(*ssa.Builtin); ok && bi.Name() == "append" && len(cc.Args) == 2 {
+			a0, ok0 := cc.Args[0].(*ssa.Slice)
+			a1, ok1 := cc.Args[1].(*ssa.Slice)
+			return ok0 && ok1 && a0.X == a1.X && a0.High == ssa.Value(idx) && a1.Low != nil
+		}
+		return cc.IsInvoke() && cc.Method.Name() == "Remove" && len(cc.Args) == 1 && cc.Args[0] == ssa.Value(idx)
+	}
+}
+
+// everyLapProgresses enumerates the simple paths from the loop header round
+// the loop back to the header and requires of each that it delivers index+1,
+// or delivers the index unchanged after a removal. Merges met on the way are
+// resolved by the edge the path took.
+func everyLapProgresses(idx *ssa.Phi, loop map[*ssa.BasicBlock]bool, isRemoval func(ssa.Instruction) bool) (bool, string) {
+	H := idx.Block()
+	var bad []string
+	paths := 0
+	type frame struct {
+		resolved map[*ssa.Phi]ssa.Value
+		removed  bool
+	}
+	resolve := func(v ssa.Value, m map[*ssa.Phi]ssa.Value) ssa.Value {
+		for i := 0; i < 8; i++ {
+			ph, ok := v.(*ssa.Phi)
+			if !ok || ph == idx {
+				return v
+			}
+			nv, ok := m[ph]
+			if !ok {
+				return v
+			}
+			v = nv
+		}
+		return v
+	}
+	var walk func(cur *ssa.BasicBlock, fr frame, seen map[*ssa.BasicBlock]bool, trail []int)
+	walk = func(cur *ssa.BasicBlock, fr frame, seen map[*ssa.BasicBlock]bool, trail []int) {
+		if paths > 5000 {
+			return
+		}
+		removed := fr.removed
+		for _, ins := range cur.Instrs {
+			if isRemoval(ins) {
+				removed = true
+			}
+		}
+		for _, s := range cur.Succs {
+			if !loop[s] {
+				continue
+			}
+			pi := -1
+			for i, pr := range s.Preds {
+				if pr == cur {
+					pi = i
+				}
+			}
+			if s == H {
+				paths++
+				d := resolve(idx.Edges[pi], fr.resolved)
+				adv := false
+				if bo, ok := d.(*ssa.BinOp); ok && bo.Op == token.ADD {
+					if n, isC := intConst(bo.Y); isC && n >= 1 && resolve(bo.X, fr.resolved) == ssa.Value(idx) {
+						adv = true
+					}
+				}
+				switch {
+				case adv:
+				case d == ssa.Value(idx) && removed:
+				case d == ssa.Value(idx):
+					bad = append(bad, fmt.Sprintf("the lap through blocks %v returns to the loop header with the index unchanged and nothing removed: the loop does not terminate on such an element", append(append([]int{}, trail...), cur.Index)))
+				default:
+					bad = append(bad, fmt.Sprintf("the lap through blocks %v delivers %s as the next index", append(append([]int{}, trail...), cur.Index), valueLabel(d)))
+				}
+				continue
+			}
+			if seen[s] {
+				continue
+			}
+			nr := map[*ssa.Phi]ssa.Value{}
+			for k, v := range fr.resolved {
+				nr[k] = v
+			}
+			for _, i2 := range s.Instrs {
+				if ph, ok := i2.(*ssa.Phi); ok && pi >= 0 {
+					nr[ph] = ph.Edges[pi]
+				}
+			}
+			ns := map[*ssa.BasicBlock]bool{s: true}
+			for k := range seen {
+				ns[k] = true
+			}
+			walk(s, frame{nr, removed}, ns, append(append([]int{}, trail...), cur.Index))
+		}
+	}
+	walk(H, frame{map[*ssa.Phi]ssa.Value{}, false}, map[*ssa.BasicBlock]bool{H: true}, nil)
+	if paths > 5000 {
+		return false, "too many paths round the loop to enumerate"
+	}
+	if paths == 0 {
+		return false, "no path returns to the loop header"
+	}
+	if len(bad) > 0 {
+		return false, bad[0]
+	}
+	return true, ""
 }
